@@ -120,6 +120,18 @@ def corpus():
         for n in names:
             if n not in have: vs[0][1].append({'key': ('opt', n), 'frags': [('lit', '7')], 'val': None})
         out.append({'model': m})
+    # a variable defined through another variable, used twice in one value (and a second alias with the same text)
+    for k in range(1):
+        m = sc.gen_model(random.Random(1540 + k), kind='pair')
+        for s_, es in m['sections']:
+            for e in es: e['frags'] = [('lit', e['val'])]
+        ps = [es for s_, es in m['sections'] if s_[0] == 'Pair'][0]
+        if ps:
+            ps[0]['frags'] = [('lit', 'sum(as.buck 1000.0 '), ('var', 'rho_OO'), ('lit', ' 32.0, as.buck 250.0 '), ('var', 'rho_OO'), ('lit', ' 0.0, as.bornmayer 10.0 '), ('var', 'rho_b'), ('lit', ')')]
+            ps[0]['val'] = 'sum(as.buck 1000.0 0.3 32.0, as.buck 250.0 0.3 0.0, as.bornmayer 10.0 0.3)'
+            m['sections'].insert(0, (('Variables',), [{'key': ('opt', 'rho'), 'frags': [('lit', '0.3')], 'val': None}, {'key': ('opt', 'rho_OO'), 'frags': [('var', 'rho')], 'val': None},
+                                                      {'key': ('opt', 'rho_b'), 'frags': [('var', 'rho')], 'val': None}]))
+            out.append({'model': m})
     # the same bare ${NAME} written in two sections, NAME not a variable: in each section it is that section's own entry NAME
     for k in range(2):
         g = random.Random(1520 + k)
